@@ -156,6 +156,17 @@ func fillBytes(r *rand.Rand, n int) []byte {
 // only when the value looks right. To the codec all of it is opaque content.
 func shapeBytes(r *rand.Rand, name string, b []byte) []byte {
 	n := len(b)
+	if ie, ok := ownIEs()[name]; ok && n >= 4 && r.Intn(8) == 0 {
+		// the value reads like THE WHOLE INFORMATION ELEMENT as it is cut out of a message: its own IEI, a length that
+		// announces exactly the rest, then the value (a ciphered container may hold any octets, these included)
+		b[0] = ie.iei
+		if ie.wide {
+			b[1], b[2] = byte((n-3)>>8), byte(n-3)
+		} else {
+			b[1] = byte(n - 2)
+		}
+		return b
+	}
 	if n < 4 || r.Intn(3) != 0 {
 		return b
 	}
@@ -196,6 +207,31 @@ func shapeBytes(r *rand.Rand, name string, b []byte) []byte {
 		}
 	}
 	return b
+}
+
+type ownIE struct {
+	iei  byte
+	wide bool // two length octets (TLV-E)
+}
+
+var ownIEMemo map[string]ownIE
+
+// ownIEs: IEI and length format of every optional length-carrying member, by member name.
+func ownIEs() map[string]ownIE {
+	if ownIEMemo == nil {
+		ownIEMemo = map[string]ownIE{}
+		ds, _ := nasdesc.Load()
+		for i := range ds {
+			for _, mem := range ds[i].Members {
+				if mem.Optional && mem.HasIEI {
+					if _, ln, _, _ := memberFields(mem.Type); ln >= 0 {
+						ownIEMemo[mem.Name] = ownIE{byte(mem.IEI), memberCapacity(mem.Type) > 255}
+					}
+				}
+			}
+		}
+	}
+	return ownIEMemo
 }
 
 // genNas builds a message of type d with the optional members selected by mask (bit i = i-th optional member).
